@@ -89,45 +89,101 @@ package limiters
 // taken (assumed for the field; proved for the three constructors built in limits.Init).
 //@ extern func (BucketSet).New$field() L
 //@   ensures result != nil && result.held == 0
-// holds(r)[key]: permits currently taken through bucket set r under key (ghost view used by limits.Group; the link to
-// the per-bucket limiters is NOT proved: the postconditions on holds below are trusted-ensures with an assumed frame).
+// usersOf(r, k): the bucket's own count of Take calls that are waiting for or hold a token of key k (real field
+// `users`, 0 when there is no bucket). take() counts a user, a refused / failed Take and Release uncount it, and
+// take() reaps only buckets without users: a bucket through which a permit is held is never dropped, however
+// stale its last lookup is (defect found here and fixed: it was dropped, the next Take got a fresh limiter with all
+// permits free, and the matching Release calls crashed with "mismatched Release call").
+//@ pure func usersOf(r *BucketSet, k string) int = has(r.m, k) && r.m[k] != nil ? r.m[k].users : 0
+// holds(r)[key]: ghost mirror of usersOf used by limits.Group (whole-map view). Its updates are trusted-ensures of
+// exactly the shape of the postconditions PROVED for usersOf below; the link between the two (bucket-link) is assumed.
 //@ ghost field BucketSet.holds Map[string,int]
-// Assumed link between the ghost view and the buckets (the model does not track it through take()):
-//@ axiom bucket-link: forall r *BucketSet, k string :: r != nil && r.holds[k] > 0 ==> has(r.m, k) && r.m[k] != nil && r.m[k].r != nil && r.m[k].r.held > 0
+//@ axiom bucket-link: forall r *BucketSet, k string :: r != nil && r.holds[k] > 0 ==> has(r.m, k) && r.m[k] != nil && r.m[k].r != nil && r.m[k].r.held > 0 && r.m[k].users > 0
 //@ pure func bucketsOK(r *BucketSet) bool = r != nil && r.m != nil && (forall k string :: has(r.m, k) ==> r.m[k] != nil && r.m[k].r != nil) && (forall k string :: r.holds[k] >= 0)
+// bucketsInv: the private part of the bucket set's object invariant (the map is a private field): user counts are not
+// negative and distinct keys have distinct buckets. Assumed on entry of the exported methods (requires[ENV]: no caller
+// outside the package can break it), proved on their exit, required and ensured by the internal functions.
+//@ pure func bucketsInv(r *BucketSet) bool = (forall k string :: has(r.m, k) && r.m[k] != nil ==> r.m[k].users >= 0) && (forall a string, b string :: has(r.m, a) && has(r.m, b) && a != b ==> r.m[a] != r.m[b])
+// usersBounded: machine arithmetic - the user count of a bucket stays below 2^62 (a precondition, not proved: it would
+// take that many concurrent Take calls on one key).
+//@ pure func usersBounded(r *BucketSet) bool = forall k string :: has(r.m, k) && r.m[k] != nil ==> r.m[k].users < 4611686018427387904
+// NewBucketSet establishes the private invariant: an empty table.
+//@ func NewBucketSet
+//@   prop C11
+//@   nopanic
+//@   ensures result != nil && fresh(result) && result.m != nil && len(result.m) == 0 && bucketsInv(result) && usersBounded(result)
+//@   ensures result.ReapInterval == reapInterval && result.MaxBuckets == maxBuckets
 //@ func (*BucketSet).take
 //@   prop C11
 //@   nopanic
-//@   requires bucketsOK(r) && r.New != nil
+//@   requires bucketsOK(r) && bucketsInv(r) && r.New != nil && usersBounded(r)
 //@   modifies *
-//@   ensures bucketsOK(r)
+//@   ensures bucketsOK(r) && bucketsInv(r)
 //@   ensures result != nil ==> has(r.m, key) && result == r.m[key].r
+//@   ensures r.New == old(r.New) && errTooManyBuckets != nil
 //@   ensures result == nil ==> len(r.m) > r.MaxBuckets
-//@   loop 0 invariant bucketsOK(r)
+//@   ensures result != nil ==> usersOf(r, key) == old(usersOf(r, key)) + 1
+//@   ensures result == nil ==> usersOf(r, key) == old(usersOf(r, key))
+//@   ensures forall k string :: k != key ==> usersOf(r, k) == old(usersOf(r, k))
+// ... and a bucket with users is never dropped
+//@   ensures forall k string :: old(usersOf(r, k)) > 0 ==> has(r.m, k) && r.m[k] == old(r.m[k])
+//@   ensures forall k string :: old(r.holds[k]) > 0 ==> has(r.m, k) && r.m[k] == old(r.m[k])
+//@   loop 0 invariant bucketsOK(r) && bucketsInv(r) && (forall k string :: has(r.m, k) ==> !fresh(r.m[k])) && (forall k string :: usersOf(r, k) == old(usersOf(r, k))) && (forall k string :: old(usersOf(r, k)) > 0 ==> has(r.m, k) && r.m[k] == old(r.m[k]))
 //@   assert-call (time.Time).Sub : $t == now
+//@ func (*BucketSet).unuse
+//@   prop C11
+//@   nopanic
+//@   requires bucketsOK(r) && bucketsInv(r)
+//@   modifies *
+//@   ensures bucketsOK(r) && bucketsInv(r)
+//@   ensures usersOf(r, key) == (old(usersOf(r, key)) > 0 ? old(usersOf(r, key)) - 1 : 0)
+//@   ensures forall k string :: k != key ==> usersOf(r, k) == old(usersOf(r, k))
+//@   ensures r.New == old(r.New) && r.m == old(r.m) && (forall k string :: has(r.m, k) == old(has(r.m, k)) && r.m[k] == old(r.m[k]))
+// Take / TakeContext / Release: what callers see is the ghost view holds (caller-facing frame: only holds, noframe - the
+// buckets' internals are not mentioned to callers); what is PROVED for the bodies (`proves`: checked, not exported) is the
+// same statement over the real user counts, and that the bucket-set invariant is kept.
 //@ func (*BucketSet).Take
 //@   prop C11
 //@   nopanic
+//@   splitreturns
 //@   requires bucketsOK(r)
+//@   requires[ENV] bucketsInv(r) && usersBounded(r)
 //@   modifies r.holds
 //@   noframe
+//@   proves bucketsOK(r) && bucketsInv(r)
+//@   proves old(r.New) != nil && result ==> usersOf(r, key) == old(usersOf(r, key)) + 1
+//@   proves old(r.New) == nil || !result ==> usersOf(r, key) == old(usersOf(r, key))
+//@   proves forall k string :: k != key ==> usersOf(r, k) == old(usersOf(r, k))
+//@   proves forall k string :: old(usersOf(r, k)) > 0 ==> has(r.m, k) && r.m[k] == old(r.m[k])
 //@   trusted-ensures r.New != nil && result ==> r.holds == store(old(r.holds), key, old(r.holds)[key] + 1)
 //@   trusted-ensures r.New == nil || !result ==> r.holds == old(r.holds)
 //@ func (*BucketSet).TakeContext
 //@   prop C11
 //@   nopanic
+//@   splitreturns
 //@   requires bucketsOK(r)
+//@   requires[ENV] bucketsInv(r) && usersBounded(r)
 //@   modifies r.holds
 //@   noframe
+//@   proves bucketsOK(r) && bucketsInv(r)
+//@   proves old(r.New) != nil && result == nil ==> usersOf(r, key) == old(usersOf(r, key)) + 1
+//@   proves old(r.New) == nil || result != nil ==> usersOf(r, key) == old(usersOf(r, key))
+//@   proves forall k string :: k != key ==> usersOf(r, k) == old(usersOf(r, k))
+//@   proves forall k string :: old(usersOf(r, k)) > 0 ==> has(r.m, k) && r.m[k] == old(r.m[k])
 //@   trusted-ensures r.New != nil && result == nil ==> r.holds == store(old(r.holds), key, old(r.holds)[key] + 1)
 //@   trusted-ensures r.New == nil || result != nil ==> r.holds == old(r.holds)
 //@ func (*BucketSet).Release
 //@   prop C11
 //@   nopanic
 //@   requires bucketsOK(r)
+//@   requires[ENV] bucketsInv(r)
 //@   requires r.New == nil || r.holds[key] > 0
 //@   modifies r.holds
 //@   noframe
+//@   proves bucketsOK(r) && bucketsInv(r)
+//@   proves old(r.New) != nil ==> usersOf(r, key) == (old(usersOf(r, key)) > 0 ? old(usersOf(r, key)) - 1 : 0)
+//@   proves old(r.New) == nil ==> usersOf(r, key) == old(usersOf(r, key))
+//@   proves forall k string :: k != key ==> usersOf(r, k) == old(usersOf(r, k))
 //@   trusted-ensures r.New != nil && old(r.holds)[key] > 0 ==> r.holds == store(old(r.holds), key, old(r.holds)[key] - 1)
 //@   trusted-ensures r.New == nil || old(r.holds)[key] <= 0 ==> r.holds == old(r.holds)
 //@ func (*BucketSet).Close
